@@ -115,6 +115,7 @@ struct OpResult {
     bool done = false;
     uint64_t digest = 0;      // everything observable of the call, including the process-wide settings left behind
     uint64_t digest_core = 0; // the same without the settings fingerprint
+    uint64_t digest_h = 0;     // digest without errno, with the settings fingerprint (what oracle H compares)
     uint64_t digest_noerr = 0; // ... and without errno (the value errno has after a successful call is unspecified)
     int64_t ret = 0;
     int64_t raw = 0; // the library function's own return value
@@ -210,6 +211,7 @@ struct Task {
     // per-op fault and stream state
     const Op *op = nullptr;
     uint32_t alloc_count = 0;
+    int errno_carry = 0;      // errno as the task's previous call left it (a thread's errno is caller-visible state that carries over)
     int in_once = 0;          // depth of one-time initialisers being run by this task
     uint32_t sys_count = 0;   // file-system / descriptor calls made by the current op so far
     FILE *wr = nullptr, *rd = nullptr;
